@@ -6,7 +6,7 @@ patch=$1; shift
 wt=/tmp/seedrepo-$$
 git -C /repo worktree add --detach $wt HEAD >/dev/null 2>&1 || { echo "cannot create worktree"; exit 9; }
 tag=$(python3 -c "import hashlib,os,sys;print(hashlib.sha1(os.path.realpath(sys.argv[1]).encode()).hexdigest()[:8])" $wt)
-trap 'git -C /repo worktree remove --force '$wt' >/dev/null 2>&1; rm -f /verif/replays/C*.json /verif/replays/rapid/* /verif/.build/*.'$tag'.* 2>/dev/null' EXIT
+trap 'git -C /repo worktree remove --force '$wt' >/dev/null 2>&1; rm -f /verif/replays/C*.json /verif/replays/rapid/* /verif/.build/*.'$tag'.* /verif/.build/check-tool.*.'$tag' 2>/dev/null' EXIT
 cd $wt
 if ! git apply "$patch"; then echo "PATCH DOES NOT APPLY"; exit 8; fi
 export GOFLAGS=-mod=mod GOPROXY=off GOSUMDB=off GOTOOLCHAIN=local
